@@ -78,7 +78,7 @@ class CollectSuite(Suite):
                 for row in pil:
                     if rng.random() < 0.7:
                         row[1] = rng.choice(ext)
-            yield {"groups": groups, "pil": pil, "mode": mode,
+            yield {"groups": groups, "pil": pil, "mode": mode, "level": rng.choice(["1/100", "1/100", "1/20", "1/2"]),
                    "counts_set": rng.random() < 0.8, "suppress": rng.random() < 0.5,
                    "valid_index": rng.random() < 0.95}
 
@@ -95,19 +95,26 @@ class CollectSuite(Suite):
         recorded = []
         real = fdr.calc_post_err_prob_cutoff
 
+        level = case.get("level", "1/100")
+        levels = []
+
         def rec(peps, q):
             recorded.append([gens.fr(p) for p in peps])
+            levels.append(q)
             return real(peps, q)
         fdr.calc_post_err_prob_cutoff = rec
         try:
             try:
                 if case["counts_set"]:
                     st.set_peptide_counts_per_protein(pil)
-                infos = st.collect_peptide_scores_per_protein(pg, pil, 0.01, suppress_missing_protein_warning=case["suppress"])
+                infos = st.collect_peptide_scores_per_protein(pg, pil, float(Fraction(level)), suppress_missing_protein_warning=case["suppress"])
             except Exception as e:
                 return {"raise": gens.exn_name(e)}
         finally:
             fdr.calc_post_err_prob_cutoff = real
+        if any(q != float(Fraction(level)) for q in levels):
+            # the level is part of the cutoff oracle's contract: it is the one the caller passed
+            return {"raise": "OtherError", "msg": f"cutoff function asked for level {levels}, the caller's level is {level}"}
         return {"ok": [[[gens.fr(i[0]), i[1], list(i[2])] for i in inf] for inf in infos],
                 "peps": recorded[0] if recorded else None}
 
@@ -297,7 +304,8 @@ SUITES = [CollectSuite(), BestPepSuite(), MultPepSuite()]
 
 
 def suite_by_name(name):
-    return next(s for s in SUITES if s.name == name)
+    from .pipeline_common import PipelineSuite
+    return next(s for s in SUITES + [PipelineSuite()] if s.name == name)
 
 
 def run(r: core.Runner):
@@ -319,3 +327,7 @@ def run(r: core.Runner):
     r.violation = violation
     for su in SUITES:
         r.run_suite(su, max_report=2)
+    # evidence collection inside the whole inference function, where the grouping of the RESCUE pass is built by merging and
+    # re-indexing the first-pass object (the quantifier's "first pass and rescue pass"): rescue methods, discard and razor
+    from .pipeline_common import PipelineSuite
+    r.run_suite(PipelineSuite(methods=["picked_protein_group", "classic_rescued_subset_grouping", "razor_picked", "savitski_mq_mult"]))
